@@ -6,6 +6,7 @@ import random, json, sys
 from .. import common as C, pyexec, sim
 
 PID = 'C16'
+SHARDABLE = False      # exhaustive enumerations, cheap: one process
 PROP_MODULE = 'J1939.Props.C16'
 UNITS = ['DTC.ofDtc', 'DTC.ofFields', 'DtcLamp.get_status', 'Dm1.parse_dtc_int', 'Dm1.send_byte0', 'Dm1.send_byte1', 'Dm1.send_byte2',
          'Dm1.send_byte3', 'Dm1.send_pf', 'Dm1.send_ps', 'Dm1.parse_lamp_pl', 'Dm1.parse_lamp_awl', 'Dm1.parse_lamp_rsl', 'Dm1.parse_lamp_mil',
@@ -26,7 +27,7 @@ def rand_dtc(rng):
 
 def correspondence(ctx):
     rng = random.Random(ctx.seed * 1000003 + 16)
-    n = 400 if ctx.quick else 6000
+    n = ctx.n(400, 6000)
     lines = []
     for _ in range(n):
         lamps = [rng.randrange(5) for _ in range(4)]
